@@ -19,7 +19,18 @@ import (
 	"time"
 )
 
-const Root = "/verif"
+// Root is the verification directory: the working directory of the check
+// (run.sh cds to its own directory), so that a background snapshot run never
+// writes into /verif itself.
+var Root = func() string {
+	if d := os.Getenv("PMC_ROOT"); d != "" {
+		return d
+	}
+	if d, err := os.Getwd(); err == nil {
+		return d
+	}
+	return "/verif"
+}()
 
 // Violation is one failing case.
 type Violation struct {
